@@ -121,7 +121,21 @@ type deliveryOutcome struct {
 	canon string
 }
 
+// publicStates / publicTransitions count, for the ScanSnapshot-level parts, the Read
+// calls answered and the distinct (stream, offset, bytes offered) points reached.
+var publicStates = map[string]struct{}{}
+var publicTransitions int
+
 func scanWith(data []byte, sr *scriptReader, opts *Opts) string {
+	if sr.onRead == nil {
+		tag := h.Hash(string(data))
+		sr.onRead = func(s *scriptReader, p []byte) {
+			publicTransitions++
+			if len(publicStates) < 1000000 {
+				publicStates[fmt.Sprintf("%s|%d|%d", tag, s.off, len(p))] = struct{}{}
+			}
+		}
+	}
 	res := scanOnce(sr, opts)
 	if res.panicked != "" {
 		return "panic: " + firstLine(res.panicked)
@@ -396,5 +410,9 @@ func TestVerifC09(t *testing.T) {
 		c09PartB(t, r)
 	case "c":
 		c09PartC(t, r)
+	}
+	if len(publicStates) > 0 {
+		r.Add("states", len(publicStates))
+		r.Add("transitions", publicTransitions)
 	}
 }
